@@ -509,7 +509,41 @@ func isBoundsException(fn *ssa.Function, in ssa.Instruction) bool {
 	// premise: the result is only handed to the checksum function
 	onlyChecksum := true
 	for _, ref := range *sl.Referrers() {
-		if call, ok := ref.(*ssa.Call); !ok || !an.CalleeIs(&call.Call, "fix", "CalcCheckSum") {
+		call, ok := ref.(*ssa.Call)
+		if !ok {
+			if _, isDbg := ref.(*ssa.DebugRef); !isDbg {
+				onlyChecksum = false
+			}
+			continue
+		}
+		if an.CalleeIs(&call.Call, "fix", "CalcCheckSum") {
+			continue
+		}
+		// … or to a helper cut out of the validation whose parameter goes nowhere but into the checksum function
+		h := an.StaticCallee(&call.Call)
+		okHelper := false
+		if h != nil && !an.IsKnown(h) {
+			if owner, _ := an.LogicalOwner(h); owner == fn {
+				for i, a := range call.Call.Args {
+					if a != ssa.Value(sl) || i >= len(h.Params) {
+						continue
+					}
+					okHelper = true
+					for _, r2 := range *h.Params[i].Referrers() {
+						switch y := r2.(type) {
+						case *ssa.DebugRef:
+						case *ssa.Call:
+							if !an.CalleeIs(&y.Call, "fix", "CalcCheckSum") {
+								okHelper = false
+							}
+						default:
+							okHelper = false
+						}
+					}
+				}
+			}
+		}
+		if !okHelper {
 			onlyChecksum = false
 		}
 	}
